@@ -408,7 +408,12 @@ class LiftRunner:
                 f = self.selector(case['ns'], case['sel'])
                 narop = case.get('hook') == '_compose_narop' or case.get('kind') == 'narop' \
                     or case.get('name') == 'list_narop'
-                out['direct'] = self.fmt_deep(self.spec_apply(f, ops, take, narop))
+                if case.get('flop'):        # ChannelList's own n-ary methods: rows of receiver and arguments
+                    width = max(len(o) if isinstance(o, list) else 1 for o in ops)
+                    rows = [[o[i % len(o)] if isinstance(o, list) else o for o in ops] for i in range(width)]
+                    out['direct'] = self.fmt_deep([f(*r) for r in rows])
+                else:
+                    out['direct'] = self.fmt_deep(self.spec_apply(f, ops, take, narop))
             except Exception as e:
                 out['direct'] = f'E:{type(e).__name__}'
         finally:
